@@ -36,15 +36,21 @@ int ags_minimize(unsigned n, nlopt_func func, void *data, unsigned m, nlopt_cons
   {
     if (fc[i].m != 1)
       return NLOPT_INVALID_ARGS;
-    functions.push_back([fc, n, i](const double* x_) {
+    functions.push_back([fc, n, i, l, u](const double* x_) {
       double val = 0;
-      nlopt_eval_constraint(&val, NULL, &fc[i], n, x_);
+      std::vector<double> xc(x_, x_ + n); // the evolvent maps [0,1] to the box with rounding
+      for (unsigned j = 0; j < n; j++)
+        xc[j] = xc[j] < l[j] ? l[j] : (xc[j] > u[j] ? u[j] : xc[j]);
+      nlopt_eval_constraint(&val, NULL, &fc[i], n, xc.data());
       return val;
     });
   }
-  functions.push_back([func, data, n, stop](const double* x_) {
+  functions.push_back([func, data, n, stop, l, u](const double* x_) {
+    std::vector<double> xc(x_, x_ + n); // the evolvent maps [0,1] to the box with rounding
+    for (unsigned j = 0; j < n; j++)
+      xc[j] = xc[j] < l[j] ? l[j] : (xc[j] > u[j] ? u[j] : xc[j]);
     ++ *(stop->nevals_p);
-    return func(n, x_, NULL, data);});
+    return func(n, xc.data(), NULL, data);});
 
   ags::SolverParameters params;
   params.r = ags_r;
@@ -105,6 +111,8 @@ int ags_minimize(unsigned n, nlopt_func func, void *data, unsigned m, nlopt_cons
   if (static_cast<int>(m) == optPoint.idx)
   {
     memcpy(x, optPoint.y, n*sizeof(x[0]));
+    for (unsigned j = 0; j < n; j++) // the point that was evaluated (see the clamp above)
+      x[j] = x[j] < l[j] ? l[j] : (x[j] > u[j] ? u[j] : x[j]);
     *minf = optPoint.g[optPoint.idx];
   }
   else //feasible point not found.
